@@ -103,6 +103,40 @@ Theorem C04_copula_margins : forall mid ms, Forall cm_ok ms ->
                    == cm_md m + mean_rate (cm_m1t m) (cm_pinf m) (cm_rep m) (cm_fv m) (cm_a m)) ms.
 Proof. exact copula_margins_mean. Qed.
 
+(* VARIANCE GAP.  q_k = nu(cell_k) (mass), int_cell x^2 nu (m2); if on every cell inf2 k <= x^2 <= sup2 k (so that, x^2 nu being
+   non-negative, inf2 k * q_k <= int_cell_k x^2 nu <= sup2 k * q_k -- the hypothesis C09 discharges) then the rate-weighted
+   second moment of the states differs from the second moment of the measure OUTSIDE the central cell by at most the per-cell
+   oscillation of x^2 weighted by the cell masses.  With C04_variance_added: for infinite variation the central cell's second
+   moment is added to sigma^2, so the approximation's variance differs from sigma^2 + int_l^r x^2 nu by at most that sum; for
+   finite variation nothing is added and the gap is larger by exactly the central cell's second moment. *)
+Section VarianceGap.
+  Variable mid : Q -> Q -> Q.
+  Hypothesis mid_between : forall x y, x < y -> x < mid x y /\ mid x y < y.
+  Hypothesis mid_refl : forall x, ~ x == 0 -> mid x x == x.
+  Hypothesis mid_proper : forall x x' y y', x == x' -> y == y' -> mid x y == mid x' y'.
+  Variables mass m2 : Q -> Q -> Q.
+  Hypothesis mass_pos : forall a b, a <= b -> (b < 0 \/ 0 < a) -> 0 <= mass a b.
+  Hypothesis m2_add : forall a b c, a <= b -> b <= c -> (c < 0 \/ 0 < a) -> m2 a c == m2 a b + m2 b c.
+  Hypothesis m2_proper : forall a a' b b', a == a' -> b == b' -> m2 a b == m2 a' b'.
+  Variable xs : list Q.
+  Variables (o : nat) (h : Q).
+  Hypothesis Hadm : admissible xs o h.
+  Variables inf2 sup2 : nat -> Q.
+  Hypothesis state_in_bounds : forall k, (k < length xs)%nat -> k <> o -> inf2 k <= nthq xs k * nthq xs k <= sup2 k.
+  Hypothesis cell_moment_bounds : forall k, (k < length xs)%nat -> k <> o ->
+    inf2 k * mass (cell_lo mid xs k) (cell_hi mid xs k) <= m2 (cell_lo mid xs k) (cell_hi mid xs k)
+    <= sup2 k * mass (cell_lo mid xs k) (cell_hi mid xs k).
+
+  Theorem C04_variance_gap :
+    let outside := m2 (headq xs) (h_left mid xs o) + m2 (h_right mid xs o) (lastq xs) in
+    let osc := qsum (map (fun k => (sup2 k - inf2 k) * q_entry mid mass xs o k) (seq 0 (length xs))) in
+    - osc <= second_moment_of_rates mid mass xs o - outside <= osc.
+  Proof.
+    exact (variance_gap mid mid_between mid_refl mid_proper mass m2 mass_pos m2_add m2_proper xs o h Hadm inf2 sup2
+             state_in_bounds cell_moment_bounds).
+  Qed.
+End VarianceGap.
+
 (* the hypotheses on m1 are satisfiable: first moments of the step measures used to run the model *)
 Theorem C04_step_m1_additive : forall ps,
   (forall a b c, a <= b -> b <= c -> step_m1 ps a c == step_m1 ps a b + step_m1 ps b c)
@@ -128,4 +162,6 @@ Print Assumptions C04_joint_flag_bias.
 Print Assumptions C04_variance_added.
 Print Assumptions C04_mean_identity_infinite_variation.
 Print Assumptions C04_copula_margins.
+Print Assumptions C04_variance_gap.
 Print Assumptions C04_step_m1_additive.
+Print Assumptions C04_nonvacuous.
